@@ -25,6 +25,8 @@ func init() {
 			"two fields are treated as the same field only when name, alias, absence of selections, arguments and directives agree, and a selection is removed only on that verdict after its defer information was merged. " +
 			"It does not decide exec(norm(q)) == exec(q), validity preservation or idempotence (value level).",
 		Mutants: []Mutant{
+			{Name: "list coercion registered before default value extraction on the variables walker (reverts the F93 fix)", File: "v2/pkg/astnormalization/astnormalization.go", Rule: "C03-R17", Key: "OperationNormalizer.setupOperationWalkers/extractVariablesDefaultValue-before-inputCoercionForList",
+				Old: "\t\textractVariablesDefaultValue(&variablesProcessing)\n\t\tinputCoercionForList(&variablesProcessing)\n", New: "\t\tinputCoercionForList(&variablesProcessing)\n\t\textractVariablesDefaultValue(&variablesProcessing)\n"},
 			{Name: "the variables mapper records only variables that are the whole argument value (reverts part of the F92 fix)", File: "v2/pkg/astnormalization/variables_mapping.go", Rule: "C03-R16", Key: "variablesMappingVisitor/container-kinds-descended",
 				Old: "\tcase ast.ValueKindList:\n\t\tfor _, ref := range v.operation.ListValues[value.Ref].Refs {\n\t\t\tv.collectVariables(v.operation.Value(ref))\n\t\t}\n", New: "\tcase ast.ValueKindList:\n"},
 			{Name: "generated variable names may collide with variables that keep their name (reverts part of the F92 fix)", File: "v2/pkg/astnormalization/variables_mapping.go", Rule: "C03-R16", Key: "variablesMappingVisitor.generateUnusedVariableMappingName/kept-names-consulted",
@@ -103,6 +105,7 @@ func runC03(r *fw.Run) {
 	c03AbsentNestedVariableTakesItsDefault(r)
 	c03InlinerCoversTheSpreadMatrix(r)
 	c03MapperSeesEveryUseAndEveryKeptName(r)
+	c03DefaultsAreInPlaceBeforeListCoercion(r)
 
 	r.Rule("C03-R9", "normalization runs before validation: in astnormalization and package ast the ref of an ast.Value is handed to an accessor of kind K (doc.<K>Value…(v.Ref), doc.<K>Values[v.Ref]) only where v.Kind is known to be K (equality or switch clause on the same value, a boolean local defined from it, or every caller of an unexported helper); VariableDefinition.VariableValue is a variable by construction")
 	nKR := kindRefAgreement(r, "C03-R9", []string{"astnorm", "ast"}, nil)
@@ -1235,4 +1238,116 @@ func c03MapperSeesEveryUseAndEveryKeptName(r *fw.Run) {
 	}
 	sort.Strings(names)
 	r.Note("C03-R16: visitor fields filled from the variable definition list: %v", names)
+}
+
+// c03DefaultsAreInPlaceBeforeListCoercion (R17): list input coercion applies to the default value of a variable as it does to
+// a provided value (`$f: Filter = {tags: "x"}` with `tags: [String!]` means `{"tags":["x"]}`). The coercion visitor works on
+// the variables JSON and leaves a variable alone that is not there; the default value extraction is what puts the default
+// of an absent variable there. Both pipelines of the package — the operation normalizer's stages and the
+// VariablesNormalizer's four walks — therefore have to run the extraction before the coercion: on an earlier walk, or
+// registered earlier on the same walker when both act in EnterVariableDefinition (callbacks of one walker run in
+// registration order). Sibling agreement: the VariablesNormalizer did, the operation normalizer did not.
+func c03DefaultsAreInPlaceBeforeListCoercion(r *fw.Run) {
+	p := r.Prog
+	r.Rule("C03-R17", "in both normalization pipelines the default value extraction runs before the list coercion of variables: on an earlier walk, or registered earlier on the same walker (both act in EnterVariableDefinition)")
+	const first, second = "extractVariablesDefaultValue", "inputCoercionForList"
+	// both act on entering a variable definition?
+	actsOnEnter := func(ctorName string) bool {
+		ctor := p.Func("astnorm", ctorName)
+		if ctor == nil {
+			return false
+		}
+		info := ctor.Info()
+		var vt string
+		fw.WalkAll(ctor.Decl.Body, func(nd ast.Node) bool {
+			if cl, ok := nd.(*ast.CompositeLit); ok {
+				if n, isNamed := info.TypeOf(cl).(*types.Named); isNamed && n.Obj().Pkg() == ctor.Obj.Pkg() && vt == "" {
+					vt = n.Obj().Name()
+				}
+			}
+			return true
+		})
+		m := p.Func("astnorm", vt+".EnterVariableDefinition")
+		return m != nil && len(m.Decl.Body.List) > 0
+	}
+	sameCallback := actsOnEnter(first) && actsOnEnter(second)
+	if !sameCallback {
+		r.Note("C03-R17: the two visitors do not both act in EnterVariableDefinition any more; registration order on one walker is not compared")
+	}
+	check := func(where string, pos string, order [][]string) {
+		pa, pb := [2]int{-1, -1}, [2]int{-1, -1}
+		for i, stage := range order {
+			for j, rule := range stage {
+				if rule == first && pa[0] < 0 {
+					pa = [2]int{i, j}
+				}
+				if rule == second && pb[0] < 0 {
+					pb = [2]int{i, j}
+				}
+			}
+		}
+		if pa[0] < 0 || pb[0] < 0 {
+			r.Note("C03-R17: %s applies only one of the two rules; nothing to compare", where)
+			return
+		}
+		ok := pa[0] < pb[0] || (pa[0] == pb[0] && (!sameCallback || pa[1] < pb[1]))
+		r.Check(ok, "C03-R17", where+"/"+first+"-before-"+second, pos, "in "+where+" the default value extraction runs before the list coercion",
+			"in "+where+" "+second+" (walk "+itoa(pb[0])+", registration "+itoa(pb[1])+") runs before "+first+" (walk "+itoa(pa[0])+", registration "+itoa(pa[1])+"): the coercion finds an absent variable and leaves, then the default is copied into the variables un-coerced — `query Q($f: Filter = {ids: 1}) { find(filter: $f) }` with `ids: [Int]` yields `{\"f\":{\"ids\":1}}`, which variables validation rejects; with `{tags: \"x\"}` normalization fails with `internal: Unknown value type`")
+	}
+	n := 0
+	if order, fi := normalizerStageOrder(r); fi != nil {
+		n++
+		check("OperationNormalizer.setupOperationWalkers", fi.Pos(), order)
+	}
+	// the VariablesNormalizer: walkers built in NewVariablesNormalizer, walked in NormalizeOperation
+	ctor, run := p.Func("astnorm", "NewVariablesNormalizer"), p.Func("astnorm", "VariablesNormalizer.NormalizeOperation")
+	if ctor == nil || run == nil {
+		r.Error("C03-R17: NewVariablesNormalizer / VariablesNormalizer.NormalizeOperation not found")
+		return
+	}
+	cinfo := ctor.Info()
+	applied := map[types.Object][]string{}
+	fieldWalker := map[string]types.Object{}
+	fw.WalkAll(ctor.Decl.Body, func(nd ast.Node) bool {
+		switch x := nd.(type) {
+		case *ast.CallExpr:
+			if fn := fw.Callee(cinfo, x); fn != nil && fn.Pkg() != nil && fn.Pkg().Path() == fw.PkgPath("astnorm") {
+				for _, a := range x.Args {
+					if o := walkerArg(cinfo, a); o != nil {
+						applied[o] = append(applied[o], fn.Name())
+					}
+				}
+			}
+		case *ast.KeyValueExpr:
+			if k, ok := x.Key.(*ast.Ident); ok {
+				if o := walkerArg(cinfo, x.Value); o != nil {
+					fieldWalker[k.Name] = o
+				}
+			}
+		}
+		return true
+	})
+	rinfo := run.Info()
+	var order [][]string
+	in := fw.NewInterp(run)
+	in.H = fw.Hooks{Node: func(nd ast.Node, st *fw.State) {
+		if !in.Final() {
+			return
+		}
+		if c, ok := nd.(*ast.CallExpr); ok {
+			if sel, isSel := ast.Unparen(c.Fun).(*ast.SelectorExpr); isSel && sel.Sel.Name == "Walk" {
+				if fv, _ := fw.Field(rinfo, sel.X); fv != nil {
+					if o := fieldWalker[fv.Name()]; o != nil {
+						order = append(order, applied[o])
+					}
+				}
+			}
+		}
+	}}
+	in.Run(nil)
+	if len(order) > 0 {
+		n++
+		check("VariablesNormalizer.NormalizeOperation", run.Pos(), order)
+	}
+	r.Expect("C03-R17", "normalization pipelines whose variable stages were ordered", n, 2)
 }
